@@ -4686,12 +4686,14 @@ class PyCdlib:
 
         if iso_path is not None:
             rec = self._find_iso_record(utils.normpath(iso_path))
+            self._forget_eltorito_catalog_name(rec)
             num_bytes_to_remove += self._rm_dr_link(rec)
         elif joliet_path is not None:
             if self.joliet_vd is None:
                 raise pycdlibexception.PyCdlibInvalidInput('Cannot remove Joliet link from non-Joliet ISO')
             joliet_path_bytes = self._normalize_joliet_path(joliet_path)
             rec = self._find_joliet_record(joliet_path_bytes)
+            self._forget_eltorito_catalog_name(rec)
             num_bytes_to_remove += self._rm_dr_link(rec)
         elif udf_path is not None:
             # UDF hard link removal
@@ -4709,11 +4711,36 @@ class PyCdlib:
                 # else will.
                 num_bytes_to_remove += self.logical_block_size
             else:
+                self._forget_eltorito_catalog_name(rec)
                 num_bytes_to_remove += self._rm_udf_link(rec)
         else:
             raise pycdlibexception.PyCdlibInvalidInput("One of 'iso_path', 'joliet_path', or 'udf_path' must be specified")
 
         self._finish_remove(num_bytes_to_remove, True)
+
+    def _forget_eltorito_catalog_name(self, rec):
+        # type: (Union[dr.DirectoryRecord, udfmod.UDFFileEntry]) -> None
+        """
+        An internal method to stop tracking a name of the El Torito Boot Catalog
+        that is about to be removed with rm_hard_link, so that a later
+        rm_eltorito does not try to remove it again.  The last name stays
+        behind as the in-memory record of a hidden Boot Catalog.
+
+        Parameters:
+         rec - The record that is going to be removed.
+        Returns:
+         Nothing.
+        """
+        if self.eltorito_boot_catalog is None:
+            return
+        if isinstance(rec, dr.DirectoryRecord) and not rec.is_file():
+            return
+        catrecs = self.eltorito_boot_catalog.dirrecords
+        for index, catrec in enumerate(catrecs):
+            if id(catrec) == id(rec):
+                if len(catrecs) > 1:
+                    del catrecs[index]
+                break
 
     def add_directory(self, iso_path=None, rr_name=None, joliet_path=None,
                       file_mode=None, udf_path=None):
@@ -5238,8 +5265,14 @@ class PyCdlib:
         # the Boot Catalog.
         for rec in self.eltorito_boot_catalog.dirrecords:
             if isinstance(rec, dr.DirectoryRecord):
+                # The record of a hidden Boot Catalog is not linked into any
+                # directory, so there is nothing to remove for it.
+                if rec.parent is None or not any(id(c) == id(rec) for c in rec.parent.children):
+                    continue
                 num_bytes_to_remove += self._rm_dr_link(rec)
             elif isinstance(rec, udfmod.UDFFileEntry):
+                if rec.parent is None or not any(id(fi) == id(rec.file_ident) for fi in rec.parent.fi_descs):
+                    continue
                 num_bytes_to_remove += self._rm_udf_link(rec)
             else:
                 # This should never happen.
